@@ -688,6 +688,12 @@ func (u *Unmarshaler) processFieldWithEnvValue(fieldType reflect.Type, value ref
 		return err
 	}
 
+	// 指针字段：先分配，再按所指类型处理（否则后面对 nil 指针取 Elem 会 panic）
+	if fieldType.Kind() == reflect.Ptr {
+		maybeNewValue(fieldType, value)
+		fieldType, value = fieldType.Elem(), value.Elem()
+	}
+
 	fieldKind := fieldType.Kind()
 	switch fieldKind {
 	case reflect.Bool:
